@@ -10,7 +10,7 @@
      dsubst m v x   the data x with every selected child replaced by v
      drekey m k x   the data x with the KEY of every selected mapping entry replaced by k (entries keep place and value)
      dprune m x     the data x without the selected children (order of the rest kept)
-     dembeds x x'   x' is x with children appended to some containers, nothing else changed
+     dembeds x x'   x' is x with children appended to some containers (a null may have become a container), nothing else changed
 
    The abstraction functions [mask_subst] / [mask_prune] compute, from the
    document WITH identities, which locations an identity-based edit designates:
@@ -85,7 +85,10 @@ Inductive dembeds : data -> data -> Prop :=
       Forall2 (fun kv kv' => fst kv' = fst kv /\ dembeds (snd kv) (snd kv')) kvs kvs' ->
       dembeds (DMap kvs) (DMap (kvs' ++ new))
   | demb_seq : forall els els' new, Forall2 dembeds els els' -> dembeds (DSeq els) (DSeq (els' ++ new))
-  | demb_set : forall els new, dembeds (DSet els) (DSet (els ++ new)).
+  | demb_set : forall els new, dembeds (DSet els) (DSet (els ++ new))
+  (* a null is "no value yet": the creation of a tail beneath it puts the container holding the tail in
+     its place (fix 09e1e7a; C09_create_frame says where: at the end of the path's existing prefix) *)
+  | demb_null : forall x, (match x with DLeaf _ => False | _ => True end) -> dembeds (DLeaf PNone) x.
 
 (* ---- abstraction: which locations does an identity-based edit designate ---- *)
 Fixpoint mask_subst (P : N -> cref -> node -> bool) (d : node) : mask :=
@@ -118,7 +121,7 @@ Inductive pop :=
   | PReplace (m : mask) (v : data)     (* set: the selected locations now hold v *)
   | PRekey (m : mask) (k : pyval)      (* set: the selected mapping entries are now filed under the key k *)
   | PRemove (m : mask)                 (* delete: the selected children are gone *)
-  | PExtend.                           (* create: containers gained children (dembeds); followed by a PReplace *)
+  | PExtend.                           (* create: containers gained children, a null became a container (dembeds); followed by a PReplace *)
 
 Inductive pstep : pop -> data -> data -> Prop :=
   | ps_replace : forall m v x, pstep (PReplace m v) x (dsubst m v x)
